@@ -3,7 +3,9 @@ NEXT Next
 CONSTANTS
   PinTrue = {"b1", "b3", "l2", "e0", "e1", "g0", "g1", "l1", "t0", "z0", "s4"}
   PinFalse = {}
+  BallK = 0
 INVARIANT CompPartition
 INVARIANT EdgesBetweenNodes
 INVARIANT RespectSwitchesMonotone
 INVARIANT DistIsShortestPath
+INVARIANT WDistIsShortestPath
